@@ -52,7 +52,7 @@ func (w *XMLWriter) Attr(key, value string) *XMLWriter {
 		w.b.WriteString(" ")
 		w.b.WriteString(key)
 		w.b.WriteString("=\"")
-		w.writeEsc(value)
+		w.writeEsc(value, true)
 		w.b.WriteString("\"")
 	} else {
 		log.Print("tag is not open")
@@ -86,7 +86,7 @@ func (w *XMLWriter) write(s string) {
 func (w *XMLWriter) Write(s string) *XMLWriter {
 	w.checkOpenTag()
 	w.checkIndent()
-	w.writeEsc(s)
+	w.writeEsc(s, false)
 	return w
 }
 
@@ -96,8 +96,23 @@ func (w *XMLWriter) WriteHTML(s template.HTML) *XMLWriter {
 	return w
 }
 
-func (w *XMLWriter) writeEsc(s string) {
+// writeEsc writes the escaped string. A parser normalizes a carriage return in
+// character data to a line feed and tab, line feed and carriage return in an
+// attribute value to a blank, so these are written as character references.
+func (w *XMLWriter) writeEsc(s string, isAttr bool) {
 	for _, r := range s {
+		if r == '\r' {
+			w.b.WriteString("&#13;")
+			continue
+		}
+		if isAttr && r == '\n' {
+			w.b.WriteString("&#10;")
+			continue
+		}
+		if isAttr && r == '\t' {
+			w.b.WriteString("&#9;")
+			continue
+		}
 		switch r {
 		case '\'':
 			w.b.WriteString("&apos;")
